@@ -101,6 +101,35 @@ pub async fn call<T, E>(fut: impl std::future::Future<Output = Result<T, E>>) ->
     let after = panics();
     if after > before { 2 } else { match r { Err(_) => 3, Ok(Ok(_)) => 0, Ok(Err(_)) => 1 } }
 }
+static TRANSIENT: AtomicUsize = AtomicUsize::new(0);
+fn is_transient(msg: &str) -> bool {
+    ["cannot rollback", "database is locked", "disk I/O error", "database or disk is full", "unable to open database"].iter().any(|t| msg.contains(t))
+}
+/// like `call`, for requests whose verdict the model predicts: an Err whose text is an
+/// environmental condition of the engine (I/O error, full disk, lock) is retried once after a
+/// pause and counted (evidence: transient_engine_errors_retried); if it persists it is reported
+pub async fn call_t<T, E: std::fmt::Display, Fut: std::future::Future<Output = Result<T, E>>>(mk: impl Fn() -> Fut) -> i64 {
+    for attempt in 0..2 {
+        let msg = std::sync::Arc::new(Mutex::new(String::new()));
+        let m2 = msg.clone();
+        let o = call(async { let r = mk().await; if let Err(e) = &r { *m2.lock().unwrap() = e.to_string(); } r }).await;
+        let transient = is_transient(&msg.lock().unwrap());
+        if o == 1 && attempt == 0 && transient { TRANSIENT.fetch_add(1, Ordering::SeqCst); tokio::time::sleep(Duration::from_millis(500)).await; continue; }
+        return o;
+    }
+    1
+}
+/// a write the harness needs for its own set-up: retried on failure
+pub async fn setup_mutate(app: &GraphDatabaseService, text: &str, p: Option<Parameters>) -> discret::verif_hooks::database::mutation_query::MutationQuery {
+    let mut tries = 0;
+    loop {
+        let pp = p.as_ref().map(|x| { let mut n = Parameters::default(); for (k, v) in &x.params { n.params.insert(k.clone(), v.clone()); } n });
+        match app.mutate_raw(text, pp).await {
+            Ok(r) => return r,
+            Err(e) => { tries += 1; if tries >= 4 { panic!("set-up mutation fails: {} : {}", text, e); } START_RETRIES.fetch_add(1, Ordering::SeqCst); tokio::time::sleep(Duration::from_millis(500)).await; }
+        }
+    }
+}
 fn sync_call<T, E>(f: impl FnOnce() -> Result<T, E> + std::panic::UnwindSafe) -> i64 {
     match std::panic::catch_unwind(f) { Err(_) => 2, Ok(Ok(_)) => 0, Ok(Err(_)) => 1 }
 }
@@ -291,7 +320,8 @@ fn gen_mutation(rng: &mut Rng, es: &[MEntity], ctx: &UidCtx, allow_k1: bool) -> 
 }
 
 async fn run_mutation(inst: &Inst, m: &Mutation, es: &[MEntity]) -> (i64, i64) {
-    let o = call(inst.app.mutate(&m.text(es), Some(m.parameters()))).await;
+    let text = m.text(es);
+    let o = call_t(|| inst.app.mutate(&text, Some(m.parameters()))).await;
     let p = inst.probe(false).await as i64;
     (o, p)
 }
@@ -429,11 +459,11 @@ async fn main() {
     ctx.rows_ent = ent_idx("M1");
     // a row to update (id known) of entity M1, and a room the caller administers
     {
-        let r = inst.app.mutate_raw(r#"mutate { c14.M1 { f4: "row" } }"#, None).await.unwrap();
+        let r = setup_mutate(&inst.app, r#"mutate { c14.M1 { f4: "row" } }"#, None).await;
         ctx.rows.push(base64_encode(&r.mutate_entities[0].node_to_mutate.id));
         let mut p = Parameters::default();
         p.add("user_id", base64_encode(&inst.vk)).unwrap();
-        let room = inst.app.mutate_raw(r#"mutate { sys.Room{ admin:[{verif_key:$user_id}] authorisations:[{ name:"g" rights:[{entity:"*" mutate_self:true mutate_all:true}] users:[{verif_key:$user_id}] }] } }"#, Some(p)).await.unwrap();
+        let room = setup_mutate(&inst.app, r#"mutate { sys.Room{ admin:[{verif_key:$user_id}] authorisations:[{ name:"g" rights:[{entity:"*" mutate_self:true mutate_all:true}] users:[{verif_key:$user_id}] }] } }"#, Some(p)).await;
         ctx.room = Some(base64_encode(&room.mutate_entities[0].node_to_mutate.id));
     }
     let jn = ent_idx("PJsonNullable");
@@ -464,7 +494,7 @@ async fn main() {
         if !inst.healthy {
             inst.close();
             inst = Inst::start(&model).await; fresh_instances += 1;
-            let r = inst.app.mutate_raw(r#"mutate { c14.M1 { f4: "row" } }"#, None).await.unwrap();
+            let r = setup_mutate(&inst.app, r#"mutate { c14.M1 { f4: "row" } }"#, None).await;
             ctx.rows = vec![base64_encode(&r.mutate_entities[0].node_to_mutate.id)];
             ctx.room = None;
         }
@@ -536,6 +566,7 @@ async fn main() {
     observed_streams(&mut rng, &mut out, &mut stats).await;
 
     stats.insert("answers_slower_than_5s".into(), json!(SLOW.load(Ordering::SeqCst)));
+    stats.insert("transient_engine_errors_retried".into(), json!(TRANSIENT.load(Ordering::SeqCst)));
     stats.insert("instance_starts_retried".into(), json!(START_RETRIES.load(Ordering::SeqCst)));
     eprintln!("c14 generator: {}", serde_json::Value::Object(stats.clone()));
     out.push(Case { kind: "stats".into(), coq: "CObs 0%N".into(), obs: vec![0, 1], meta: serde_json::Value::Object(stats) });
